@@ -421,6 +421,12 @@ func c17Cases(tier string) []c17Case {
 			}
 		}
 	}
+	// large area with both dimensions large (the boundary sets above keep one dimension small): more than 2^18 blocks / 2^24 samples
+	for _, g := range [][2]int{{4104, 4096}, {65535, 264}} {
+		for _, enc := range []int{0, 1} {
+			out = append(out, c17Case{Enc: enc, W: g[0], H: g[1], C: 1, P: 8, Param: 75, Len: g[0] * g[1], LenKind: "need"})
+		}
+	}
 	// parameter products at a small fixed geometry (every parameter boundary crossed with every other)
 	for _, lv := range []int{-1, 0, 1, 6, 7, 33} {
 		for _, cb := range []int{-4, 0, 1, 2, 4, 8, 48, 64, 512, 1024, 2048} {
